@@ -202,6 +202,30 @@ def _tree_field(v):
     return None
 
 
+def _pairs_from_array_loop(b, ops):
+    """State operands that are the elements of an array literal of pairs iterated by a `for` loop: the pairs of that literal."""
+    sl = b.slice(list(ops), control=False)
+    if not any(strip_generics(c).endswith("Iterator::next") for c in sl["calls"]):
+        return []
+    out = []
+    for l in sl["locals"]:
+        for d in b.defs().get(l, []):
+            if d[0] == "stmt" and d[3]["k"] == "assign" and not d[3]["pl"]["p"] and d[3]["rv"]["k"] == "agg" and d[3]["rv"].get("ak") == "array":
+                elems = []
+                for o in d[3]["rv"]["ops"]:
+                    v = b.value(o)
+                    if v[0] == "agg" and str(v[1]) == "tuple" and len(v[2]) == 2:
+                        fs = [_tree_field(x) for x in v[2]]
+                        if None not in fs:
+                            elems.append(tuple(fs))
+                            continue
+                    elems = None
+                    break
+                if elems:
+                    out.extend(elems)
+    return out
+
+
 def r3(F, R):
     R.rule("C01-R3", "U-turn checks in extend(): the set of (a, b) argument pairs is closed under left<->right; "
                      "every impl of is_turning orders its two states by index_in_trajectory before any other use")
@@ -215,7 +239,11 @@ def r3(F, R):
         for _bb, t in b.calls_to(lambda c: path_ends(c["path"], "Hamiltonian::is_turning")):
             fs = [_tree_field(b.value(a)) for a in t["args"][-2:]]
             if None in fs:
-                whole += 1
+                lp = _pairs_from_array_loop(b, t["args"][-2:])
+                if lp:
+                    pairs.extend(lp)      # `for (a, b) in [(&self.right, &other.right), ..] { is_turning(a, b) }`
+                else:
+                    whole += 1
             else:
                 pairs.append(tuple(fs))
         site = "%s @%s" % (b.path, b.loc())
